@@ -275,20 +275,11 @@ def r11c(ctx, run):
         if cond.get("kind") == "call" and short(cond["callee"]) == "icmp_imm":
             cc = cond["args"][1]["path"].split("::")[-1] if cond["args"][1].get("kind") in ("agg", "enum") else None
             zero = cond["args"][3].get("kind") == "scalar" and cond["args"][3]["value"] == "0"
-            tch = fn.chain_operand(b.args[2], depth=10)
-            ech = fn.chain_operand(b.args[4], depth=10)
-            t, e = show_chain(tch, 4), show_chain(ech, 4)
-            # nil arm = the element found by `find(|ty| ty == Ty::Nil)`; payload arm = arm_blocks[(nil_idx == 0) as usize]
-            def top_call(ch):
-                while ch.get("kind") in ("place", "ref", "cast"):
-                    ch = ch.get("base") or ch.get("of")
-                return ch if ch.get("kind") == "call" else {}
-            tt, et = top_call(tch), top_call(ech)
-            nil_is_else = short(et.get("callee", "")) in ("expect", "unwrap") and FA.chain_has_call(et, "find")
-            some_is_then = short(tt.get("callee", "")) == "index" and any(n.get("kind") == "bin" and n["op"] == "Eq" for n in walk_chain(tt["args"][1] if tt else {}))
-            okb = cc == "NotEqual" and zero and nil_is_else and some_is_then
-            run.check(okb, b.site(), "nullable pointer: brif(icmp_imm(NotEqual, v, 0), some, nil)", FC, "nullable-dispatch", b.file, b.ln,
-                      "nullable-pointer switch must branch to the payload arm when the pointer != 0 and to the nil arm otherwise (cc=%s then=%s else=%s)" % (cc, t[:40], e[:40]))
+            # which block each side goes to is decided by R11.g (the branch is evaluated for every arm shape); here: the value compared is the scrutinee's
+            val = cond["args"][2]
+            okb = cc in ("NotEqual", "Equal") and zero and (FA.chain_has_call(val, "compile_expr") or FA.chain_has_call(val, "expect"))
+            run.check(okb, b.site(), "nullable pointer: brif(icmp_imm(%s, scrutinee, 0), ..)" % cc, FC, "nullable-dispatch", b.file, b.ln,
+                      "nullable-pointer switch must branch on the scrutinee pointer compared with 0 (cc=%s value=%s)" % (cc, show_chain(val, 4)[:60]))
     if not brifs:
         run.finding(FC, "nullable-dispatch", fn.file, lo, "no brif for the nullable-pointer form of switch")
     # arm argument binding
@@ -332,7 +323,7 @@ def r11d(ctx, run):
     mapname = re.search(r"(\w+)\.get\(&idx\)", canon(loop)).group(1)
     usedname = re.search(r"(\w+)\.contains\(", canon(loop))
     usedname = usedname.group(1) if usedname else None
-    pushes = [x for x in walk(loop) if x.get("k") == "mcall" and x["m"] == "push"]
+    pushes = [x for x in walk(loop) if x.get("k") == "mcall" and x["m"] == "push" and x["r"].get("k") == "path" and "EnumVariant" in canon(x)]
     listname = canon(pushes[0]["r"]) if pushes else "variant_tys"
     n_ok, bad = 0, None
     for n in (1, 2, 3, 4, 5):
@@ -369,6 +360,43 @@ def r11d(ctx, run):
             break
     run.check(bad is None, ct.site(loop["ln"]), "automatic discriminants avoid the hand-written ones and each other (%d enum shapes up to 5 variants)" % n_ok, "GlobalInferenceCtx::const_ty",
               "distinct-discriminants", ct.file, loop["ln"], bad or "")
+    # the tag is ONE byte (R02.a: every tag store / load moves I8; hand-written discriminants are checked against u8): an automatic discriminant past 255
+    # must be reported, it cannot be stored
+    class SI(SymInterp):
+        def default_method(self, recv, m_, args, e):
+            if isinstance(recv, Term):
+                return Term(m_)
+            return super().default_method(recv, m_, args, e)
+
+        def eval(self, e, env):
+            # what a diagnostic is built from (the expression, its range) is opaque here
+            if e.get("k") == "path" and "::" not in e["p"] and e["p"] not in env and e["p"][:1].islower():
+                return Term(e["p"])
+            return super().eval(e, env)
+    n_fit, bad = 0, None
+    for n, manual in ((2, {0: 255}), (3, {0: 254}), (3, {1: 255}), (3, {0: 255, 1: 0}), (4, {1: 253})):
+        variants = [Obj("Variant", name=Obj("NameWithRange", name=Term("v%d" % q), range=Term("range%d" % q)), ty=None, uid=q, discriminant=None) for q in range(n)]
+        diags = []
+        env = Env(None, {"variants": variants, mapname: dict(manual), listname: [], "enum_uid": 9,
+                         "self": Obj("self", diagnostics=diags, loc=Term("loc"), bodies=Term("bodies"), tys=Term("tys"))})
+        if usedname:
+            env[usedname] = set(manual.values())
+        it = SI()
+        try:
+            for st in b["s"][j:i + 1]:
+                it.stmt(st, env)
+        except (Panic, CannotEstablish) as c:
+            bad = "cannot establish the numbering of %d variants with hand-written discriminants %s: %s" % (n, manual, getattr(c, "what", c))
+            break
+        out = env[listname]
+        ds = [v.fields.get("discriminant") if isinstance(v, Obj) else (v.payload.get("discriminant") if isinstance(v, Variant) else None) for v in out]
+        big = [d for d in ds if not isinstance(d, int) or d > 255]
+        if big and not diags:
+            bad = "an enum of %d variants with hand-written discriminants %s (index -> value) is numbered %s without a diagnostic: %s does not fit the one-byte tag; the code generator's " \
+                  "Switch rejects it (compiler crash) and a byte compare against it never matches" % (n, manual, ds, big)
+            break
+        n_fit += 1
+    run.check(bad is None, ct.site(loop["ln"]), "automatic discriminants past 255 are reported (%d shapes)" % n_fit, "GlobalInferenceCtx::const_ty", "discriminant-fits-tag", ct.file, loop["ln"], bad or "")
 
 
 def r11e(ctx, run):
@@ -440,12 +468,123 @@ def r11f(ctx, run):
                       desc, ("tag %s" % got) if isinstance(got, int) else got, "error" if want == 0 else "payload", want))
 
 
+def r11g(ctx, run):
+    """the nullable-pointer form of switch (an optional of a pointer has no tag: nil is the null pointer) handles every arm shape the checker accepts:
+    both arms, one arm plus a default arm, only a default arm, both arms plus a default arm.  The branch is evaluated from source for each shape; it
+    must not end in a failed assertion."""
+    from symint import SymInterp
+    from absint import Obj, Term, Variant, Panic, CannotEstablish, _Return
+    V = Variant
+    sfn = ctx.syn.fn("FunctionCompiler::compile_expr_with_args", "codegen/src/compiler/functions.rs")
+    arm = None
+    for m in synq.matches_on(sfn.body):
+        for h, p_, g, b, a in synq.match_table(m):
+            if h and h.endswith("Expr::Switch"):
+                arm = (p_, b, a)
+    if arm is None:
+        raise LookupError("Expr::Switch arm of compile_expr_with_args")
+    branch = [x for x in walk(arm[1]) if x.get("k") == "if" and "enum_layout()" in canon(x["c"]) and x.get("e") is not None]
+    if len(branch) != 1:
+        raise LookupError("the `if let Some(enum_layout) = sum_ty.enum_layout()` of the Switch arm: %d" % len(branch))
+    nullable = branch[0]["e"]
+    nil_t, ptr_t = V("Ty::Nil"), V("Ty::Pointer", {"mutable": False, "sub_ty": V("Ty::IInt", {"0": 32})})
+    shapes = [("nil and payload arms", [nil_t, ptr_t], False), ("payload and nil arms", [ptr_t, nil_t], False), ("nil arm and a default arm", [nil_t], True),
+              ("payload arm and a default arm", [ptr_t], True), ("only a default arm", [], True), ("both arms and a default arm", [nil_t, ptr_t], True)]
+
+    class SI(SymInterp):
+        def eval(self, e, env):
+            if e.get("k") == "assign" and e["l"].get("k") == "index":
+                return None
+            if e.get("k") == "index":
+                b = self.eval(e["e"], env)
+                if isinstance(b, (Term, Obj)):
+                    return Term("idx")
+            if e.get("k") in ("ref",) or (e.get("k") == "un" and e.get("op") in ("*", "&")):
+                return self.eval(e["e"], env)
+            if e.get("k") == "cast":
+                return self.eval(e["e"], env)
+            if e.get("k") == "path" and "::" in e["p"] and e["p"] not in env and not e["p"].startswith("Ty::"):
+                return Term(e["p"])
+            return super().eval(e, env)
+
+        def default_method(self, recv, m_, args, e):
+            if isinstance(recv, Obj) and recv.name == "sum_ty":
+                return {"is_optional": True, "is_tagged_union": False}.get(m_, Term(m_))
+            if isinstance(recv, (Term, Obj)) or recv is None:
+                if m_ == "is_none":
+                    return recv is None
+                if m_ == "is_some":
+                    return recv is not None
+                if m_ == "icmp_imm":
+                    return Term("icmp_imm", *args)
+                if m_ == "brif":
+                    self.brifs.append(args)
+                return Term(m_)
+            return super().default_method(recv, m_, args, e)
+
+    def mk_assert(kind):
+        def f(i, e, env):
+            a = e.get("a", [])
+            try:
+                if kind == "assert" and a and i.eval(a[0], env) is False:
+                    raise Panic("assert!(%s) fails" % canon(a[0])[:50])
+                if kind in ("assert_eq", "assert_ne") and len(a) >= 2:
+                    x, y = i.eval(a[0], env), i.eval(a[1], env)
+                    if isinstance(x, (int, bool)) and isinstance(y, (int, bool)) and ((x != y) if kind == "assert_eq" else (x == y)):
+                        raise Panic("%s!(%s, %s) fails" % (kind, canon(a[0])[:30], canon(a[1])[:30]))
+            except CannotEstablish:
+                pass
+            return None
+        return f
+    for desc, tys_, has_default in shapes:
+        arm_blocks = [(t, Term("block%d" % i_), Obj("arm", switch_arg=None, body=Term("body%d" % i_))) for i_, t in enumerate(tys_)]
+        env = {"self": Obj("self", builder=Term("builder"), func_writer=Term("fw"), ptr_ty=Term("ptr_ty"), switch_locals=Term("sl")), "sum_ty": Obj("sum_ty"), "scrutinee_val": Term("scrutinee"),
+               "arm_blocks": arm_blocks, "default": Obj("default", switch_arg=None, body=Term("default_body")) if has_default else None, "exit_block": Term("exit"),
+               "return_ty": Term("return_ty"), "no_load": False, "default_block": Term("default_block")}
+        it = SI(macros={"assert": mk_assert("assert"), "assert_eq": mk_assert("assert_eq"), "assert_ne": mk_assert("assert_ne"), "format": lambda i, e, env: "fmt"},
+                funcs={"Some": lambda i, a: a[0], "BlockArg::Value": lambda i, a: Term("arg")})
+        it.brifs = []
+        try:
+            try:
+                it.eval(nullable, env)
+                got = None
+            except _Return:
+                got = None
+        except Panic as p_:
+            got = p_.what
+        except CannotEstablish as c:
+            got = "cannot establish: %s" % getattr(c, "what", c)
+        run.check(got is None, sfn.site(nullable["ln"]), "switch over ?^T with %s" % desc, sfn.qual, "nullable-switch:" + desc, sfn.file, nullable["ln"],
+                  "a switch over an optional of a pointer with %s is accepted by the checker, but the code generator's nullable-pointer form ends in %s: no diagnostic, no executable"
+                  % (desc, got))
+        if got is not None:
+            continue
+        # the dispatch: exactly one two-way branch on `scrutinee != 0`; non-null goes to the payload arm, null to the nil arm, a side without an arm of its own to the default block
+        want_some = next((b for t, b, _ in arm_blocks if t is not nil_t), Term("default_block"))
+        want_nil = next((b for t, b, _ in arm_blocks if t is nil_t), Term("default_block"))
+        good, why = False, "%d two-way branches" % len(it.brifs)
+        if len(it.brifs) == 1 and len(it.brifs[0]) == 5:
+            c, th, _, el, _ = it.brifs[0]
+            if isinstance(c, Term) and c.op == "icmp_imm" and len(c.args) == 3 and c.args[1] == Term("scrutinee") and c.args[2] == 0:
+                cc = str(c.args[0][0]) if isinstance(c.args[0], Term) else str(c.args[0])
+                if cc.endswith("NotEqual"):
+                    good = (th, el) == (want_some, want_nil)
+                elif cc.endswith("Equal"):
+                    good = (th, el) == (want_nil, want_some)
+                why = "brif(%s(scrutinee, 0), %r, %r)" % (cc.rsplit("::", 1)[-1], th, el)
+            else:
+                why = "condition %r" % (c,)
+        run.check(good, sfn.site(nullable["ln"]), "dispatch of ?^T with %s: non-null -> %r, null -> %r" % (desc, want_some, want_nil), sfn.qual, "nullable-dispatch:" + desc, sfn.file, nullable["ln"],
+                  "a switch over an optional of a pointer with %s must branch on the pointer being non-null to %r and otherwise to %r; found %s" % (desc, want_some, want_nil, why))
+
+
 def rules(ctx):
     return [
         Rule("R11.a", "structural matches on the scrutinee type agree with the distinct-transparent predicate that admitted it", 4, r11a),
         Rule("R11.b", "coverage logic: not-a-variant, duplicates, missing variants, complete variant list, default-arm rules", 8, r11b),
-        Rule("R11.d", "variants of one enum get pairwise distinct discriminants; hand-written ones are kept (numbering loop evaluated on every small enum shape)", 1, r11d),
+        Rule("R11.d", "variants of one enum get pairwise distinct discriminants; hand-written ones are kept (numbering loop evaluated on every small enum shape); an automatic discriminant past the one-byte tag is reported", 2, r11d),
         Rule("R11.e", "the tag an arm's type is mapped to is the tag its producer wrote: get_tagged_union_discrim evaluated (nominally different same-shape sides included)", 11, r11e),
         Rule("R11.f", "the side of an error union a value is stored on is the side its declared type names (cast_into_memory evaluated; explicit casts of distincts fall back to the type underneath)", 5, r11f),
+        Rule("R11.g", "the nullable-pointer form of switch handles every arm shape the checker accepts (both arms, one arm + default, default only) and sends non-null to the payload arm, null to the nil arm, a missing side to the default block", 12, r11g),
         Rule("R11.c", "dispatch wiring: I8 tag at discriminant_offset, entry per arm keyed by its variant, fallback/fault, nullable form, argument binding", 9, r11c),
     ]
